@@ -25,7 +25,14 @@ for sid in sys.argv[2:]:
             caught.append(dict(check=m.group(1), tier="quick", violations=int(m.group(3)), first=m.group(4)[:300]))
         else:
             missed.append(dict(check=m.group(1), tier="quick", exit=int(m.group(2))))
-    meta["caught_by"] = caught
-    meta["missed_by"] = missed
-    json.dump(meta, open(mp, "w"), indent=1)
+    import os
+    if os.environ.get("RESULT_FILE"):
+        # a robustness run (e.g. another VERIF_SEED): record separately, leave meta.json alone
+        with open(os.environ["RESULT_FILE"], "a") as f:
+            f.write(json.dumps(dict(id=sid, seed=os.environ.get("VERIF_SEED", "1"), caught=[c["check"] for c in caught],
+                                    missed=[c["check"] for c in missed])) + "\n")
+    else:
+        meta["caught_by"] = caught
+        meta["missed_by"] = missed
+        json.dump(meta, open(mp, "w"), indent=1)
     print(sid, "caught by", [c["check"] for c in caught], "missed by", [c["check"] for c in missed], flush=True)
